@@ -365,6 +365,7 @@ class StatusProgressStorage(ProgressStorage):
         # Work around an issue with mypy not treating TypedDicts as MutableMappings.
         essence_dict = cast(dict[Any, Any], essence)
         dicts.remove(essence_dict, self.field)
+        dicts.remove(essence_dict, self.touch_field)
 
         self.remove_empty_stanzas(essence)
         return essence
